@@ -433,7 +433,37 @@ def conc_stage(tier, seed, key):
                 reached += d["reached"]
                 missed += d["missed"]
                 aligned += d["missed"] == 0
-    cov_stats.update({"segments_reached": reached, "segments_missed": missed, "behaviours_fully_aligned": aligned})
+    # outcome conformance: in an aligned replay every operation of the real crate must return what the model returned
+    by_id = {j["id"]: j for j in jobs if "model_rets" in j}
+    same = differ = 0
+    for p in res["files"]:
+        cur, got = None, []
+        for line in open(p):
+            if line.startswith('{"e":"begin"'):
+                cur, got = json.loads(line)["id"], []
+            elif cur in by_id and '"e":"ret"' in line:
+                e = json.loads(line)
+                if e["op"] in ("load", "load_full", "swap", "rcu", "cache_new", "cache_load") and 1 <= e["t"] <= 3:
+                    got.append([e["t"], e["op"], e["v"]])
+            elif line.startswith('{"e":"end"') and cur in by_id:
+                if json.loads(line)["info"]["missed"] == 0:
+                    want = by_id[cur]["model_rets"]
+                    def per_thread(rs):
+                        # object ids are compared up to renaming (two threads may allocate in either order between two accesses)
+                        ren, out = {}, {}
+                        for t in (1, 2, 3):
+                            out[t] = []
+                            for x in rs:
+                                if x[0] == t:
+                                    out[t].append([x[1], ren.setdefault(x[2], len(ren))])
+                        return out
+                    if per_thread(got) == per_thread(want):
+                        same += 1
+                    else:
+                        differ += 1
+                cur = None
+    cov_stats.update({"segments_reached": reached, "segments_missed": missed, "behaviours_fully_aligned": aligned,
+                      "aligned_behaviours_same_results_as_model": same, "aligned_behaviours_different_results": differ})
     nontrivial = non_trivial_all(res["files"])
     summary = {"execs": res["execs"], "events": res["events"], "viols": out_v, "files": res["files"], "tlc_replay": cov_stats, "nontrivial": nontrivial,
                "wall": time.time() - t0, "fams": {f: n for f, n in plan}, "incidents": res["incidents"]}
